@@ -70,8 +70,15 @@ class FirstK(FS):
 def _run(U, m, filename, k, unique=True, fs=None):
     fs = fs or FirstK(k)
     saved = m.os, getattr(m, "re")
+    swapped = {}
     if U.mode == "sym":
         m.os, m.re = OsModel(fs), ReModel()
+        # patterns the module compiled when it was loaded (with the real `re`): the same patterns of the matcher model
+        import re as _real_re
+        for gname, g in list(vars(m).items()):
+            if isinstance(g, _real_re.Pattern) and isinstance(g.pattern, str) and not (g.flags & ~_real_re.UNICODE):
+                swapped[gname] = g
+                setattr(m, gname, m.re.compile(g.pattern))
         if not U.substitutions:
             U.substitutions.append("androguard.misc.os := posixpath model + explicit file set; androguard.misc.re := regex matcher model")
     else:
@@ -80,6 +87,8 @@ def _run(U, m, filename, k, unique=True, fs=None):
         o = U.call(m.clean_file_name, filename, unique)
     finally:
         m.os, m.re = saved
+        for gname, g in swapped.items():
+            setattr(m, gname, g)
     return o, fs
 
 
